@@ -358,6 +358,8 @@ pub enum Op {
     Update { table: String, sets: Vec<(String, Val)>, cond: Option<Cond> },
     Delete { table: String, cond: Option<Cond> },
     Select { table: String, cols: Vec<String>, cond: Option<Cond> },
+    /// read-only: join of two tables on left.lcol = right.rcol
+    Join { left: String, right: String, lcol: String, rcol: String, outer: bool },
     WriteStream { name: String, dseed: u32, steps: Vec<WStep> },
     ReadStream { name: String, steps: Vec<RStep> },
     RemoveStream { name: String },
@@ -382,6 +384,7 @@ impl Op {
             Op::Update { .. } => "update",
             Op::Delete { .. } => "delete",
             Op::Select { .. } => "select",
+            Op::Join { .. } => "join",
             Op::WriteStream { .. } => "write_stream",
             Op::ReadStream { .. } => "read_stream",
             Op::RemoveStream { .. } => "remove_stream",
@@ -411,7 +414,7 @@ impl Op {
     pub fn is_mutation(&self) -> bool {
         !matches!(
             self,
-            Op::Select { .. } | Op::ReadStream { .. } | Op::Observe | Op::Flush | Op::Restart { .. }
+            Op::Select { .. } | Op::Join { .. } | Op::ReadStream { .. } | Op::Observe | Op::Flush | Op::Restart { .. }
         )
     }
 }
